@@ -504,7 +504,7 @@ spif_mbuff_ncmp(spif_mbuff_t self, spif_mbuff_t other, spif_memidx_t cnt)
     int c;
 
     SPIF_OBJ_COMP_CHECK_NULL(self, other);
-    if (cnt > self->len || cnt > other->len) {
+    if (cnt < 0 || cnt > self->len || cnt > other->len) {
         return spif_mbuff_cmp(self, other);
     }
     c = memcmp(SPIF_MBUFF_BUFF(self), SPIF_MBUFF_BUFF(other), cnt);
